@@ -112,6 +112,12 @@ impl BlindSignatureContextTrait for BlindSignatureContext {
         points.push(G1Projective::GENERATOR);
         points.push(self.commitment);
 
+        // exactly one response per generator in front of the commitment: the multi-scalar
+        // multiplication pairs positionally and would otherwise drop the challenge term
+        if self.proofs.len() + 1 != points.len() {
+            return Ok(false);
+        }
+
         let mut scalars = self.proofs.clone();
         scalars.push(-self.challenge);
 
